@@ -77,6 +77,16 @@ CLAIMS["C11"] = ("whole-program effect/alias analysis for the two symbol-table c
     "Decides the necessary structural conditions: only __init__/add_symbols/clone/create_from_symbol_id_map write sym_table or sym_index anywhere in hta, also through any alias handed out by the getters; add_symbols is append-only under the membership guard with the id taken before the append and both stores in the guarded block; clone copies, create_from_symbol_id_map derives the index from the table it built; re-encoding is global_map[local_table[old]] with the same rank's local table and the global map read after all additions, with no cast back to the narrow local dtype; results are collected only with pool.map and zipped with the rank list the inputs were built from, ranks sorted; no ordering/arithmetic use of an encoded name/cat column outside two justified sites where the column is decoded. Multiprocessing's delivery guarantees and hash-seed effects inside pandas are not decided.",
     "3/C11")
 
+CLAIMS["C13"] = ("symbolic evaluation of the three tree recurrences with the recursive call abstracted; scatter-term check of the defaults; AST rules for the backward attachment and the link direction; end = ts + dur typestate",
+    "Decides: depth = parent's + 1 with roots entered at -2 and children visited with the node's new depth; height = 0 for device nodes, 1 for childless host nodes, else max over children of child+1; kernel info = (1, dur, end-ts, ts, end) at a device leaf and (sum, sum, max end - min start, min, max) over ALL children at a host node, written back to the like-meaning stack columns; the eight defaults and the (0,0,-1,-1) normalisation of rows with num_kernels <= 0; device activity attached beneath its launch call as a GPU node; backward attachment only with exactly one main and one bwd stack, candidates '## backward ##' then 'ProfilerStep#' chosen by the events present on this rank's main thread, re-parenting the root's children with ts >= parent.ts and end <= parent.end; end coherent after the time shift. The tree itself is C03.",
+    "3/C13")
+CLAIMS["C16"] = ("symbolic evaluation of root selection / pattern accumulation (event log of dict stores); interprocedural abstract evaluation of the descendants query on a two-node abstract tree with the call site's actual arguments; dependency clause on the call-stack tie rules (decision table)",
+    "Decides: candidates = name ids of symbols containing operator_name; roots = candidates at the minimum depth over ALL candidates with num_kernels >= min_pattern_len; per root the stack of its own id without ancestors, device rows by start time, pattern = (root name,) + their names, count += 1, durations += (root kernel_dur_sum, root dur) with positional unpacking agreeing with the projected columns; result ordered by count descending; the device child of a host root is retained by get_stack_of_node -> get_descendants -> get_paths_to_leaves with the arguments actually passed; and the endpoint tie rules that decide which operator owns an event at a shared instant. Correctness of the whole tree is C03/C13.",
+    "3/C16")
+CLAIMS["C20"] = ("effect/alias analysis of the raw trace dictionaries with a mutation whitelist; freshness rule for the reader; AST pairing rules of the overlay; sibling cross-check of the compression convention; regex/separator agreement",
+    "Decides: every mutation site on an object derived from the parsed source file in the writer paths is on the whitelist (append/extend traceEvents, args.critical marker, distributedInfo rank, replacement only under only_show_critical_events) and the object written is the object read; the reader returns a fresh parse on every call (no cache to leak earlier mutations); markers are set for positions in critical_path_events_set, flow pairs are built per critical edge from (begin node, its event) / (end node, its event) with one id per edge on the events' pid/tid, the zero-weight filter applies to the show-all view only; every reader and writer chooses gzip by the suffix and output names keep the suffix; the rank regex matches what every json.dump(s) on the write path produces.",
+    "3/C20")
+
 REASON_WIP = "checker under construction in this session (see DESIGN.md section 3); not claimed until its check is committed"
 
 
